@@ -328,7 +328,7 @@ SAFE_STEPS: list[tuple[str, str, str]] = [
     ('Representation.get_segment_index', r'self\.segments\[\w+\]\.duration',
      'on wrap-around seg_start_tc restarts at origin_time, which advances by ref_duration_tc > 0 '
      '(asserted two lines above the loop); stored durations are >= 0'),
-    ('Mp4Atom.load', r'atom\.size',
+    ('Mp4Atom.load', r'atom\w*\.size',
      'atom.size is hdr["size"] (Box.parse returns initial_data); see the guard on hdr["size"]'),
 ]
 
